@@ -102,7 +102,12 @@ func (g *G) amCasesFor(cfgs []amCfg) {
 			// the genuine transcript of this configuration
 			gen := runAM(s, c.auth, c.cc, tamper{dir: "none"})
 			if gen.client != "ok" || gen.server != "ok" {
-				die("AM: the genuine handshake of %04x auth=%d cc=%v does not complete: %s %s [%s]", s, c.auth, c.cc, gen.client, gen.server, gen.detail)
+				// The honest control of this configuration fails: that is an observation (the control line above
+				// records it), not a reason to give up.  Without a genuine transcript there is no field map, so
+				// this configuration gets no tamper cases in this run.
+				fmt.Fprintf(os.Stderr, "c08 gen: AM control %04x auth=%d cc=%d does not complete (%s %s: %s); its tamper cases are skipped\n",
+					s, c.auth, b2i(c.cc), gen.client, gen.server, gen.detail)
+				continue
 			}
 			for _, rl := range []*relay{gen.s2c, gen.c2s} {
 				for _, name := range rl.order {
@@ -154,7 +159,7 @@ func gen(seed uint64, tier string, o *hx.Out) {
 	for _, s := range []struct {
 		name string
 		f    func()
-	}{{"AS", g.asCases}, {"AC", g.acCases}, {"AM", g.amCases}, {"AN", g.anCases}, {"PA", g.paCases}, {"PD", g.pdCases}, {"AS/AC round 6", g.round6Cases}, {"round 9 GM", g.round9GM}, {"round 9 TLS", g.round9TLS}} {
+	}{{"AS", g.asCases}, {"AC", g.acCases}, {"AM", g.amCases}, {"AN", g.anCases}, {"PA", g.paCases}, {"PD", g.pdCases}, {"AS/AC round 6", g.round6Cases}, {"round 9 GM", g.round9GM}, {"round 9 TLS", g.round9TLS}, {"AH", g.ahCases}} {
 		t0, n0 := time.Now(), g.id
 		s.f()
 		g.flush()
